@@ -20,14 +20,17 @@
   conv → BatchNormalization(center=False) (C15_callable, C15_center_false_regression; C15_fold_identity
   has no hypothesis on beta any more).
 
+  Fixed (8710a09): QConv2DBatchnorm accepted `data_format` and did not forward it to QConv2D, so
+  the layer took the process-wide image data format whatever was asked for.  Both constructors now
+  build the requested layout, an omitted argument meaning the process-wide format (§8:
+  C15_ctor_data_format, C15_ctor_fold_identity, regression witness
+  C15_conv_data_format_fixed_witness).
+
   Findings mirrored here:
    * convert_to_folded_model / model_quantize(enable_bn_folding=True) delete the BatchNormalization
      layers and never transfer their parameters: the returned model computes a different function
      (C15_to_folded_as_coded_counterexample); what is proved is the intended conversion
      (C15_to_folded) and the as-coded one when the deleted batch norms are identities (…_partial).
-   * QConv2DBatchnorm accepts `data_format` and does not forward it: a channels_first request builds
-     a channels_last layer (§8: C15_ctor_conv_drops_data_format, C15_conv_data_format_counterexample,
-     partial C15_ctor_conv_data_format_partial; the depthwise class honours the argument).
 
   Strengthening round: every statement quantifies over both data formats (`Geom.cf`; §8), and §9
   puts HISTORIES on one layer object inside the theorems — `get_folded_weights`, `unfold_model` and
@@ -459,9 +462,11 @@ example : foldSites [⟨.input, []⟩, ⟨.conv2d, [0]⟩, ⟨.bn, [1]⟩, ⟨.o
 
   Every theorem above is stated for an arbitrary `Geom`, hence for both layouts (`cf = false`:
   NHWC, `cf = true`: NCHW — the input read `xAt`, the output order `atFlat`, the channel of a flat
-  index `chan` used by `bias_add` and by the batch norm all follow the layout).  What is NOT uniform
-  is the constructor: `QDepthwiseConv2DBatchnorm` honours `data_format`, `QConv2DBatchnorm` accepts
-  the argument and drops it. -/
+  index `chan` used by `bias_add` and by the batch norm all follow the layout).  The constructors of
+  BOTH classes build the layout that was asked for; an omitted `data_format` is the process-wide
+  `K.image_data_format()` of the moment of construction (`ctorCfg`, `resolveFormat`).
+  Fixed (8710a09): `QConv2DBatchnorm.__init__` used to accept `data_format` and drop it, so the
+  layer took the process-wide format whatever was asked for (C15_conv_data_format_fixed_witness). -/
 
 /-- a channels_first depthwise layer is not the channels_last one on the same flat data (the layout
     is really modelled): 1x1 kernel [1, 10] on 2 channels, x = [1,2,3,4] read as NCHW (1,2,1,2)
@@ -476,39 +481,83 @@ example : ({ exDwCF with cfg := ⟨.dw, { exGeomCF with cf := false }, 1⟩ } : 
     (fun _ => 1) noStats [1, 2, 3, 4] = some [1, 20, 3, 40] := by decide +kernel
 example : convThenBN exDwCF (fun _ => 1) [1, 2, 3, 4] = [1, 2, 30, 40] := by decide +kernel
 
-/-- `QDepthwiseConv2DBatchnorm(data_format=…)` builds the layout that was asked for -/
-theorem C15_ctor_depthwise_keeps_data_format (c : LayerCfg) (h : c.cls = .dw) : ctorCfg c = c := by
-  unfold ctorCfg; simp [h]
+/-- THE CONSTRUCTORS HONOUR `data_format` (both classes, every process-wide setting): the layer
+    that is built has the REQUESTED layout, or the process-wide one when the argument is omitted;
+    nothing else of the configuration changes.  (Full statement; before fix 8710a09 only
+    `_partial`: the conv class ignored the argument.) -/
+theorem C15_ctor_data_format (globalCF : Bool) (df : Option Bool) (c : LayerCfg) :
+    (ctorCfg globalCF df c).g.cf = (match df with | some f => f | none => globalCF) ∧
+      (ctorCfg globalCF df c).cls = c.cls ∧ (ctorCfg globalCF df c).cm = c.cm ∧
+      (ctorCfg globalCF df c).g = { c.g with cf := (match df with | some f => f | none => globalCF) } := by
+  cases df <;> simp [ctorCfg, resolveFormat]
 
-/-- AS CODED: `QConv2DBatchnorm(data_format=…)` is channels_last whatever was asked for; nothing
-    else of the configuration changes -/
-theorem C15_ctor_conv_drops_data_format (c : LayerCfg) (h : c.cls = .conv) :
-    (ctorCfg c).g.cf = false ∧ (ctorCfg c).cls = c.cls ∧ (ctorCfg c).cm = c.cm ∧
-      (ctorCfg c).g = { c.g with cf := false } := by
-  unfold ctorCfg; simp [h]
+/-- an explicit `data_format` never looks at the process-wide setting -/
+theorem C15_ctor_explicit_ignores_global (g g' : Bool) (f : Bool) (c : LayerCfg) :
+    ctorCfg g (some f) c = ctorCfg g' (some f) c := rfl
 
-/-- PARTIAL (what does hold for the conv class): the layer that is built equals conv → BN of the
-    layout that was BUILT (channels_last), and a channels_last request is honoured -/
-theorem C15_ctor_conv_data_format_partial (c : LayerCfg) (h : c.g.cf = false) : ctorCfg c = c := by
-  obtain ⟨cls, ⟨n, h', w, cin, kh, kw, sh, sw, dh, dw, same, cf⟩, cm⟩ := c
-  simp only at h
-  subst h
-  cases cls <;> rfl
+/-- `ctorCfg` is the IDENTITY on a configuration whose layout is the requested one (both classes):
+    asking for the layout `c` describes builds exactly `c` … -/
+theorem C15_ctor_identity (globalCF : Bool) (c : LayerCfg) : ctorCfg globalCF (some c.g.cf) c = c := rfl
 
-/-- COUNTEREXAMPLE (finding C15-conv-data-format-ignored): requested
-    `QConv2DBatchnorm(2, (1,1), data_format="channels_first")` on an input of shape (1,2,2,2),
-    kernel [[1,2],[10,20]] (cin x cout), identity batch norm: the layer that is built treats the
-    input as NHWC and returns [21,42,43,86,65,130,87,174], while Conv2D(channels_first) →
-    BatchNormalization(axis=1) with the same parameters gives [51,62,73,84,102,124,146,168] -/
-theorem C15_conv_data_format_counterexample :
+/-- … and with the argument omitted, exactly `c` when `c` describes the process-wide layout -/
+theorem C15_ctor_identity_omitted (c : LayerCfg) : ctorCfg c.g.cf none c = c := rfl
+
+/-- the two classes are treated alike: the class of the layer plays no role for the layout -/
+theorem C15_ctor_class_uniform (globalCF : Bool) (df : Option Bool) (g : Geom) (cm cm' : ℕ) :
+    (ctorCfg globalCF df ⟨.conv, g, cm⟩).g = (ctorCfg globalCF df ⟨.dw, g, cm'⟩).g := rfl
+
+/-- `get_config()` stores the resolved format, so `from_config` and
+    `convert_folded_layer_to_unfolded` (which build the next layer from that config) rebuild the same
+    configuration under ANY process-wide setting -/
+theorem C15_ctor_config_roundtrip (g g' : Bool) (df : Option Bool) (c : LayerCfg) :
+    ctorCfg g' (ctorCfg g df c).configFormat (ctorCfg g df c) = ctorCfg g df c := rfl
+
+/-- the requested folded layer: the configuration `L.cfg` in the layout that was asked for -/
+def Folded.requested (L : Folded) (globalCF : Bool) (df : Option Bool) : Folded :=
+  { L with cfg := { L.cfg with g := { L.cfg.g with cf := resolveFormat globalCF df } } }
+
+/-- consequence for the FUNCTION (both classes, both modes, every process-wide setting, every
+    request): without quantizers the layer that the constructor builds computes conv → batch norm in
+    the REQUESTED layout (the process-wide one when none was requested) with the same parameters.
+    (Was C15_ctor_conv_data_format_partial + C15_conv_data_format_counterexample.) -/
+theorem C15_ctor_fold_identity (L : Folded) (globalCF : Bool) (df : Option Bool) (rs : ℚ → ℚ)
+    (bs : BatchStats) (x : T) (hq : L.qk = none) (hb : L.qb = none) (ha : L.act = none) :
+    ({ L with cfg := ctorCfg globalCF df L.cfg } : Folded).callInference rs bs x
+      = some (convThenBN (L.requested globalCF df) rs x) :=
+  C15_fold_identity (L.requested globalCF df) rs bs x hq hb ha
+
+/-- REGRESSION WITNESS of the repaired defect (finding C15-conv-data-format-ignored, fix 8710a09):
+    `QConv2DBatchnorm(2, (1,1), data_format="channels_first")` under the default process-wide format,
+    input of shape (1,2,2,2), kernel [[1,2],[10,20]] (cin x cout), identity batch norm.  The old
+    constructor built the channels_last layer, which returns [21,42,43,86,65,130,87,174]; the layer
+    that is built now returns what Conv2D(channels_first) → BatchNormalization(axis=1) returns,
+    [51,62,73,84,102,124,146,168].  The other direction (process-wide channels_first, explicit
+    channels_last — the old constructor built channels_first) gives the NHWC values. -/
+theorem C15_conv_data_format_fixed_witness :
     let g : Geom := { n := 1, h := 2, w := 2, cin := 2, kh := 1, kw := 1, sh := 1, sw := 1, dh := 1, dw := 1,
                       same := false, cf := true }
     let req : Folded := { cfg := ⟨.conv, g, 2⟩, mode := .ema, kernel := [1, 2, 10, 20], bias := none, bn := exBN2,
                           qk := none, qb := none, act := none }
-    let built : Folded := { req with cfg := ctorCfg req.cfg }
-    built.callInference (fun _ => 1) noStats [1, 2, 3, 4, 5, 6, 7, 8] = some [21, 42, 43, 86, 65, 130, 87, 174] ∧
-      convThenBN req (fun _ => 1) [1, 2, 3, 4, 5, 6, 7, 8] = [51, 62, 73, 84, 102, 124, 146, 168] := by
-  constructor <;> decide +kernel
+    let built : Folded := { req with cfg := ctorCfg false (some true) req.cfg }
+    let builtLast : Folded := { req with cfg := ctorCfg true (some false) req.cfg }
+    let x : T := [1, 2, 3, 4, 5, 6, 7, 8]
+    built.callInference (fun _ => 1) noStats x = some [51, 62, 73, 84, 102, 124, 146, 168] ∧
+      convThenBN req (fun _ => 1) x = [51, 62, 73, 84, 102, 124, 146, 168] ∧
+      builtLast.callInference (fun _ => 1) noStats x = some [21, 42, 43, 86, 65, 130, 87, 174] ∧
+      convThenBN (req.requested true (some false)) (fun _ => 1) x = [21, 42, 43, 86, 65, 130, 87, 174] ∧
+      -- omitted argument: the process-wide format decides
+      ({ req with cfg := ctorCfg true none req.cfg } : Folded).callInference (fun _ => 1) noStats x
+        = some [51, 62, 73, 84, 102, 124, 146, 168] ∧
+      ({ req with cfg := ctorCfg false none req.cfg } : Folded).callInference (fun _ => 1) noStats x
+        = some [21, 42, 43, 86, 65, 130, 87, 174] := by
+  refine ⟨?_, ?_, ?_, ?_, ?_, ?_⟩ <;> decide +kernel
+
+/-- the hypotheses of C15_ctor_fold_identity are satisfiable and the statement is not vacuous: the
+    six (process-wide format, request) combinations give two different layouts -/
+example : (ctorCfg false (some true) ⟨.conv, exGeomCF, 2⟩).g.cf = true ∧
+    (ctorCfg true (some false) ⟨.conv, exGeomCF, 2⟩).g.cf = false ∧
+    (ctorCfg true none ⟨.dw, exGeomCF, 2⟩).g.cf = true ∧ (ctorCfg false none ⟨.dw, exGeomCF, 2⟩).g.cf = false := by
+  decide
 
 /-! ### 9. histories on one layer object
 
